@@ -108,8 +108,8 @@ pub fn level(prop: &str) -> &'static str {
     }
 }
 
-pub fn rule(prop: &str) -> &'static str {
-    match prop {
+pub fn rule(prop: &str) -> String {
+    let body = match prop {
         "C10" => "Each seeded run generates one scenario (model, data, weights, operation script of 3-24 caller-driven ops with revisits, extreme parameters, failed updates, clones, conversions, an occasional whole fit) and executes it under 3 heap fill patterns; evaluations counts scenario executions. A run is non-trivial only if at least one bitwise comparison against a freshly built problem happened AND its pre-history contained a different parameter vector or a failed update. distinct = distinct signatures (model kind, flavour, and per comparison: op position, the two preceding op kinds, cache presence before, failed-update-in-history flag) among non-trivial runs.",
         "C09" => "Each seeded run generates one scenario (build -> 0-4 caller-driven ops -> fit or fit_with_statistics -> recovery update and Jacobian). 75% of runs enumerate: the scenario is executed fault-free to learn its sequence of model calls, then EVERY call position is re-executed with a transient failure, a persistent failure (and 'fail after mutating' for set_params; wrong-length closure output for builder-made models; a burst at every 7th position); 25% of runs execute a seeded 2-3 fault plan (bursts, heals, persistent). evaluations counts scenario executions (each with a tap-twin execution when a fit is present). An execution is non-trivial only if a fault actually fired; distinct = distinct signatures (model kind, flavour, kind of the failing call, phase build/pre/fit/post, persistence, action, outcome of the fit).",
         "C02" => "Each seeded run generates one scenario (model, observations with 1-4 columns, mostly non-trivial weights incl. zeros/negatives/wide ranges, operation script of 2-20 caller-driven updates/queries/weighted-data reads/conversions, usually a fit; 40% of hand-written-model runs have 1-2 transient model failures between good updates) and executes it once; after every operation the residual identity r = vec(W.Y - (W.Phi_ref(alpha)).C) is evaluated element-wise within a forward-error bound at the alpha the problem reports, weighted data are compared with w*y, best_fit with Phi_ref(alpha_hat)*C_hat, params with the last vector the model acknowledged. A run is non-trivial only if at least one residual identity was evaluated with weights that are not all ones AND a residual norm above 1e-6*||W.Y||; distinct = distinct signatures (model kind, width, flavour, API, S, M, sequence of update/weighted-data/fit outcomes).",
@@ -120,7 +120,8 @@ pub fn rule(prop: &str) -> &'static str {
         "C12" => "Each seeded run generates one scenario with N - (M+P) drawn from {-3..+3, large}, weights on/off, both widths, optimizer knob swarm incl. patience 1 (failing fits), and executes fit_with_statistics under BOTH build profiles (overflow checks on / off). 88% of runs enumerate: after a fault-free execution (with a tap twin that locates the end of the optimizer), EVERY model-call position of the statistics computation is re-executed with a transient and a persistent model failure; 12% execute a seeded mid-fit failure. evaluations counts scenario executions. Every execution with a completed call is non-trivial; distinct = distinct signatures (model kind, model shape M/P, width, flavour, sign/size of N-(M+P) clamped to +-4, termination reason, Ok/Err, phase of the failure, weights).",
         "C17" => "Each seeded run generates one builder-made model (random parameter lists, arities 0-3, shared parameters, invariant functions) and a history of 3-24 bare-model calls: set_params with lengths {P,0,P-1,P+1,2P}, eval, eval_partial_deriv(k) with k in {0..P-1,P,P+7,usize::MAX}; the history is executed fault-free and then once for EVERY (closure, wrong length in {0,N-1,N+1,2N}) pair, the closure returning that length at a seeded call index. The reference model is the last accepted parameter vector. An execution is non-trivial only if a wrong-length output was actually returned or a wrong-length parameter vector was applied; distinct = distinct signatures (width, M, P, function/derivative closure, empty/shorter/longer, outcome sequence).",
         _ => "",
-    }
+    };
+    format!("{body} Bounds of the generators (nothing beyond them is explored): f64 and f32; basis functions from 9 analytic families of arity 0-5 plus constant/linear terms, up to 10 of them sharing up to 20 nonlinear parameters (mostly <= 3 and <= 3); 0-96 samples (C12: up to M+P+200), also fewer samples than basis functions; 1-10 right-hand sides; weights none / ones / constant / mild / 6-12 decades / with zeros / with negatives; truncation threshold default, 1e-10..3, negative, exactly 0; observations over 40 decades of magnitude; grids ascending, descending, shifted, centred; caller-driven scripts of at most 24 operations; optimizer patience 1-100 with zero/epsilon/huge tolerances, tiny step bound, no scaling; simulated pools of 1-16 threads. 4% of scenarios are 'corner' runs that draw the rare options together.")
 }
 
 pub fn components(_prop: &str) -> serde_json::Value {
